@@ -241,7 +241,7 @@ def gen_step(rng, p, pipe, group, idx, targets, handlers, later_pipes, depth_tag
             [['a1', 1], ['a2', '{a1}']]])}])
     elif body in ('merge', 'default'):
         payload = rng.choice([
-            [['word', 'merged {n}']], [['lst', {'l': [9, '{word}']}]], [['cnt', 7]], [['newkey', {'d': [['a', 1], ['b', '{word}']]}]],
+            [['word', 'merged {n}']], [['mlist', {'l': [9, '{word}']}]], [['cnt', 7]], [['newkey', {'d': [['a', 1], ['b', '{word}']]}]],
             [['nested', {'d': [['x', {'l': [1]}]]}], ['nested2', {'d': []}]], [['{word}', 'dyn']], [['flag', None]],
             [['tup', 'str-over-tuple']], [['missing', '{nokey}']]])
         inn.append(['contextMerge' if body == 'merge' else 'defaults', {'d': payload}])
@@ -336,7 +336,7 @@ def gen_case(rng, profile=None):
                ['lst', {'l': rng.choice([[1, 2], ['a', 'b'], [2, 'b', 3], []])}], ['empty', {'l': []}],
                ['cnt', 0], ['grp', 'nogroup' if rng.random() < 0.07 else 'gz'],
                ['word', rng.choice(['abc', 'x y', 'true'])], ['tup', {'t': ['t1', 't2']}],
-               ['bo', rng.choice(['fixed', 'linear'])],
+               ['bo', rng.choice(['fixed', 'linear'])], ['mlist', {'l': [0]}],
                ['nl', rng.choice(['true\n', '1\n', 'True\n', '1.0\n', 'false\n'])]]
     case = {'lib': lib, 'main': 'main', 'dict_in': dict_in, 'jit': rng.choice([[1, 4], [0, 1], [1, 1], [1, 2]])}
     if rng.random() < 0.04:
